@@ -358,6 +358,25 @@ class Interp:
 
     visit(tree, "")
 
+  def find_stmt(self, modname, qual, pred, which=0):
+    """Mechanical extraction: the n-th statement of a function satisfying pred (an ast test)."""
+    n = self.fn_nodes.get((modname, qual))
+    if n is None:
+      raise Undecided(f"function {modname}:{qual} not found (renamed or removed)")
+    self.used_functions[(modname, qual)] = n._sha
+    hits = [x for x in _walk_no_nested(n) if pred(x)]
+    hits.sort(key=lambda x: (x.lineno, x.col_offset))
+    if len(hits) <= which:
+      raise Undecided(f"statement #{which} not found in {modname}:{qual}")
+    return hits[which]
+
+  def eval_expr_in(self, modname, node, variables, qual="<extracted>"):
+    """Evaluates a real expression node with the given local variables over the module globals."""
+    mod = self.load_module(modname)
+    env = Env(mod.__env__, "function", qual=qual, locals_=set(variables))
+    env.vars.update(variables)
+    return Frame(self, env, modname, qual).eval(node)
+
   def function_sha(self, modname, qual):
     n = self.fn_nodes.get((modname, qual))
     if n is None:
